@@ -30,6 +30,21 @@ CHECKS = {
     'C08': ('algebraic-law PBT over triples of dynamic values (twins, near misses, fresh values)',
             'Exploration: equivalence, total order, hash consistency, clone/owned twins, reported signature vs encoded signature over generated triples incl. NaN, signed zeros, fds.',
             'Trusted: value bridge. Known findings: NaN breaks reflexivity (keyed by a NaN-replacement classifier), owned copies of fds compare unequal.', '7/C08'),
+    'C10': ('bounded exhaustive enumeration over a character-class alphabet, every construction route, against independent name grammars',
+            'Exploration, exhaustive within the stated bound: all strings up to 6/7 symbols over 11 character classes for 9 validated types and every construction route, plus 250..260-byte strings and UUID-like spellings; accept <=> reference grammar.',
+            'Trusted: refmodel::names (written from the specification). Tolerances: org.freedesktop.DBus as unique name; PropertyName = any 1..=255-byte string (its documentation).', '7/C10'),
+    'C11': ('round-trip + differential PBT: zbus message builder vs independent strict message parser',
+            'Exploration: generated type x fields x flags x endian x body (incl. fds); accessors and re-parse return what was put in; an independent parser written from the message-format chapter accepts the bytes and reads the same header, signature and body.',
+            'Trusted: refmodel::msg / refmodel::dbus. A body made of one struct argument reads back as that struct (documented ambiguity).', '7/C11'),
+    'C12': ('crash fuzzing of the message parser with role-aware mutations of reference-built messages (proptest-driven)',
+            'Exploration: 16 mutation kinds + random bytes into Message::from_bytes; every accessor, body deserialisation, Display and Debug of accepted messages exercised under catch_unwind.',
+            'Trusted: catch_unwind (panic=unwind).', '7/C12'),
+    'C13': ('PBT with reference-built messages carrying unknown field codes / flag bits / types, at message level and in a stream through ReadHalf::receive_message',
+            'Exploration: unknown parts must not make parsing fail, known fields/flags stay intact, and a stream keeps delivering the neighbouring messages (unknown types are skipped).',
+            'Trusted: refmodel::msg builder; scripted socket (public Socket traits).', '7/C13'),
+    'C14': ('model-based PBT of stream framing: generated message sequences x chunkings x handshake leftovers through a scripted socket',
+            'Exploration over inputs and read schedules: messages come out byte-identical, in order, with their own fds and increasing positions; >128 MiB headers fail without a body-sized read.',
+            'Trusted: scripted socket models a unix stream socket: a recvmsg never merges data across an fd-carrying message start.', '7/C14'),
 }
 
 NOT_YET = {}
